@@ -129,6 +129,9 @@ int assemble_string_counting_chunks(assemblyline_t al, char *str,
 
 int asm_assemble_string_counting_chunks(assemblyline_t al, char *str,
                                         int chunk_size, int *dest) {
+  // counting only applies to this call: remember the mode of the instance
+  ASM_MODE saved_mode = al->assembly_mode;
+  size_t saved_chunk_size = al->chunk_size;
   al->assembly_mode = CHUNK_COUNT;
   if (chunk_size < 2)
     al->assembly_mode = ASSEMBLE;
@@ -136,6 +139,8 @@ int asm_assemble_string_counting_chunks(assemblyline_t al, char *str,
   check_buffer_len(al->buffer_len);
   // assemble string containing x64 assembly code
   al->offset = assemble_all(al, str, dest);
+  al->assembly_mode = saved_mode;
+  al->chunk_size = saved_chunk_size;
   FAIL_IF(al->offset == ASM_ERROR);
   al->finalized = true;
   return EXIT_SUCCESS;
